@@ -181,3 +181,43 @@ impl hyper::rt::Timer for SimTimer {
         *sleep = self.sleep_until(new_deadline);
     }
 }
+
+thread_local! {
+    static REQUEST_IDS: RefCell<Option<(u64, u64)>> = const { RefCell::new(None) };
+}
+
+/// Make request ids on this thread a deterministic function of `seed` and the
+/// number of ids handed out so far (`None` restores random UUIDs).  Random
+/// ids have a fixed length in HTTP/1.1 but not once HPACK-compressed in
+/// HTTP/2, so they would make byte counts, and with them simulated schedules,
+/// irreproducible.
+pub fn set_request_id_seed(seed: Option<u64>) {
+    REQUEST_IDS.with(|r| *r.borrow_mut() = seed.map(|s| (s, 0)));
+}
+
+/// The next deterministic request id, formatted like a version-4 UUID, or
+/// `None` when no seed is installed on this thread.
+pub fn next_request_id() -> Option<String> {
+    REQUEST_IDS.with(|r| {
+        let mut r = r.borrow_mut();
+        let (seed, n) = r.as_mut()?;
+        *n += 1;
+        let mix = |mut z: u64| {
+            z = (z ^ (z >> 30)).wrapping_mul(0xBF58_476D_1CE4_E5B9);
+            z = (z ^ (z >> 27)).wrapping_mul(0x94D0_49BB_1331_11EB);
+            z ^ (z >> 31)
+        };
+        let hi = mix(seed.wrapping_add(n.wrapping_mul(0x9E37_79B9_7F4A_7C15)));
+        // The low half carries the counter itself, so ids never repeat
+        // within a run.
+        let lo = *n;
+        Some(format!(
+            "{:08x}-{:04x}-4{:03x}-8{:03x}-{:012x}",
+            (hi >> 32) as u32,
+            (hi >> 16) as u16,
+            (hi & 0xfff) as u16,
+            ((lo >> 48) & 0xfff) as u16,
+            lo & 0xffff_ffff_ffff
+        ))
+    })
+}
